@@ -1086,14 +1086,14 @@ func funcSlice(_, v, e, s any) (r any) {
 func slice(vs []any, e, s any) any {
 	var start, end int
 	if s != nil {
-		if i, ok := toInt(s); ok {
+		if i, ok := toSliceIndex(s, len(vs), false); ok {
 			start = clampIndex(i, 0, len(vs))
 		} else {
 			return &arrayIndexNotNumberError{s}
 		}
 	}
 	if e != nil {
-		if i, ok := toIntCeil(e); ok {
+		if i, ok := toSliceIndex(e, len(vs), true); ok {
 			end = clampIndex(i, start, len(vs))
 		} else {
 			return &arrayIndexNotNumberError{e}
@@ -1108,14 +1108,14 @@ func sliceString(v string, e, s any) any {
 	var start, end int
 	l := len([]rune(v))
 	if s != nil {
-		if i, ok := toInt(s); ok {
+		if i, ok := toSliceIndex(s, l, false); ok {
 			start = clampIndex(i, 0, l)
 		} else {
 			return &stringIndexNotNumberError{s}
 		}
 	}
 	if e != nil {
-		if i, ok := toIntCeil(e); ok {
+		if i, ok := toSliceIndex(e, l, true); ok {
 			end = clampIndex(i, start, l)
 		} else {
 			return &stringIndexNotNumberError{e}
@@ -1741,14 +1741,14 @@ func updateArraySlice(v []any, m map[string]any, path []any, n any, a allocator)
 	}
 	var start, end int
 	if s != nil {
-		if i, ok := toInt(s); ok {
+		if i, ok := toSliceIndex(s, len(v), false); ok {
 			start = clampIndex(i, 0, len(v))
 		} else {
 			return nil, &arrayIndexNotNumberError{s}
 		}
 	}
 	if e != nil {
-		if i, ok := toIntCeil(e); ok {
+		if i, ok := toSliceIndex(e, len(v), true); ok {
 			end = clampIndex(i, start, len(v))
 		} else {
 			return nil, &arrayIndexNotNumberError{e}
@@ -2196,14 +2196,27 @@ func toInt(x any) (int, bool) {
 	}
 }
 
-func toIntCeil(x any) (int, bool) {
+// toSliceIndex converts a boundary of a slice of the given length to an index.
+// A fractional start is rounded down and a fractional end is rounded up, after
+// a negative boundary has been counted from the end (so that -0.5 does not
+// lose its sign).
+func toSliceIndex(x any, length int, end bool) (int, bool) {
 	if n, ok := x.(json.Number); ok {
 		x = parseNumber(n)
 	}
-	if f, ok := x.(float64); ok {
-		x = math.Ceil(f)
+	f, ok := x.(float64)
+	if !ok {
+		return toInt(x)
 	}
-	return toInt(x)
+	if f < 0 {
+		f = max(f+float64(length), 0)
+	}
+	if end {
+		f = math.Ceil(f)
+	} else {
+		f = math.Floor(f)
+	}
+	return floatToInt(f), true
 }
 
 func floatToInt(x float64) int {
